@@ -4,7 +4,7 @@ CONSTANTS
   Alphabet = {120, 58, 35, 32, 9, 13, 10}
   MaxLen = 6
   LemmaLen = 6
-  GpgLen = 5
+  GpgLen = 4
   StrictDroppedInGpgClasses = FALSE
   PosStrictMissedByPrepass = FALSE
   ZoneWhatIf = FALSE
